@@ -1144,6 +1144,8 @@ func (gen *Generator) GenerateMultiDef(args []Sexp) error {
 			unquotedSymbol, isQuo := isQuotedSymbol(sym)
 			if isQuo {
 				syms[i] = unquotedSymbol.(*SexpSymbol)
+			} else {
+				return fmt.Errorf("All mdef targets must be symbols, but %d-th was not: '%s'", i+1, sym.SexpString(nil))
 			}
 		default:
 			return fmt.Errorf("All mdef targets must be symbols, but %d-th was not, instead of type %T: '%s'", i+1, sym, sym.SexpString(nil))
